@@ -8,12 +8,14 @@ from common import gen_data, rel
 
 TRUSTED_BASE = [
     "scipy.linalg.lstsq is a parameter (contract: returns a minimiser); the model solves the normal equations exactly",
-    "arcovar_marple / modcovar_marple are modelled at specification level (the least-squares solution and the minimum per "
-    "sample); the correspondence compares the fast recursions with it",
+    "arcovar_marple / modcovar_marple: modelled twice - at specification level (the least-squares solution and the minimum per "
+    "sample) and as a step-by-step transliteration of the recursions (Model/Marple.lean); the correspondence compares the Python "
+    "routines with both, and the two models with each other in exact rational arithmetic (kind recexact)",
     "exact mode: dyadic data, N <= 24, order <= 6; rtol 1e-6 (Marple recursions: 1e-5)",
 ]
-PARTIAL = ["equality of Marple's fast recursions with the least-squares solution is not proved in Lean (the derivation is a "
-           "chapter of Marple's book); it is checked by correspondence against the exact least-squares model and by the oracle"]
+PARTIAL = ["equality of Marple's fast recursions with the least-squares solution for EVERY input is not proved in Lean (the derivation is a "
+           "chapter of Marple's book): proved are the order-0 case, lengths and domain of the transliteration and kernel-checked exact "
+           "instances; the general statement is tested with exact rational equality between the two models on every run"]
 ASSUMPTIONS = ["N - p >= p (N - p > p for the Marple recursions, whose exact-fit case divides by zero); data matrix of full "
                "column rank (random data); conditioning predicate cond(XcH Xc) <= 1e8"]
 RULE = ("real/complex data of length 6..128 (noise, exponentials in noise, noiseless exponentials, integer data) x orders "
@@ -44,6 +46,32 @@ def impl_fit(p):
 
 def model_fit(p):
     return ("Q", proto.request(p["fn"], "Q", [p["order"]], [np.asarray(p["x"])]))
+
+
+def model_fit_rec(p):
+    """the step-by-step transliteration of Marple's recursions (Model/Marple.lean), not the specification-level stand-in"""
+    return ("Q", proto.request({"arcovarm": "arcovarmr", "modcovarm": "modcovarmr"}[p["fn"]], "Q", [p["order"]], [np.asarray(p["x"])]))
+
+
+def oracle_rec_exact(p):
+    """inside the model, in exact rational arithmetic: the transliterated recursion returns EXACTLY the least-squares
+    specification (coefficients and per-sample minimum) on every record of the batch - the unproved half of
+    'Marple's recursion = least squares' tested with equality, not a tolerance"""
+    lines = []
+    for x, order in p["batch"]:
+        for cmd in ("arcovarm", "arcovarmr", "modcovarm", "modcovarmr"):
+            lines.append(proto.request(cmd, "Q", [order], [np.asarray(x)]))
+    rep = proto.run_driver(lines)
+    out = []
+    for i, (x, order) in enumerate(p["batch"]):
+        r = [s.strip() for s in rep[4 * i: 4 * i + 4]]
+        for a, b, name in ((r[0], r[1], "arcovar_marple"), (r[2], r[3], "modcovar_marple")):
+            if a.startswith("err") and b.startswith("err"):
+                continue          # singular normal equations: both sides reject
+            if a != b:
+                out.append("model: transliterated %s recursion differs from the exact least-squares solution (N=%d order=%d): %s vs %s" % (
+                    name, len(x), order, b[:80], a[:80]))
+    return out[:3]
 
 
 def _resid(x, a, p):
@@ -190,6 +218,10 @@ KINDS = {
     # single-precision input (float32 / complex64): the solvers then work in single precision
     "fit32": {"impl": impl_fit, "model": model_fit, "oracle": oracle_fit32, "rtol": 2e-3, "atol": 1e-4, "key": _key,
               "tags": lambda p: _tags(p) + ["dtype:%s" % np.asarray(p["x"]).dtype], "nontrivial": lambda p: p["order"] >= 2},
+    "fitr": {"impl": impl_fit, "model": model_fit_rec, "rtol": 1e-5, "atol": 1e-9, "key": _key, "tags": _tags,
+             "nontrivial": lambda p: p["order"] >= 2},
+    "recexact": {"oracle": oracle_rec_exact, "key": lambda p: "recexact|%d|%d" % (len(p["batch"]), hash(np.asarray(p["batch"][0][0]).tobytes()) & 0xFFFFF),
+                 "tags": lambda p: ["recexact:%d" % len(p["batch"])]},
     "laws": {"oracle": oracle_fit, "key": _key, "tags": _tags, "nontrivial": lambda p: p["order"] >= 2},
     "overfit": {"oracle": oracle_overfit, "key": _key, "tags": lambda p: ["overfit:K=%d,p=%d" % (p["K"], p["order"])]},
     "recover": {"oracle": oracle_recover, "key": _key, "tags": lambda p: ["recover:%d" % p["order"]]},
@@ -209,6 +241,7 @@ def gen(rng, nrng, tier):
     n = 120 if tier == "quick" else 2000
     kinds = ["noise", "tone", "int", "trend"]
     fns = ["arcovar", "modcovar", "arcovarm", "modcovarm"]
+    batch = []
     for i in range(n):
         cplx = bool(nrng.integers(0, 2))
         N = int(nrng.integers(6, 25))
@@ -221,8 +254,13 @@ def gen(rng, nrng, tier):
             continue
         fn = fns[i % 4]
         yield ("fitm" if fn.endswith("m") else "fit", {"x": x, "order": order, "fn": fn, "dkind": dk})
+        if fn.endswith("m"):
+            yield ("fitr", {"x": x, "order": order, "fn": fn, "dkind": dk})
+            batch.append((x, order))
         if (i // 4) % 3 == 0 and np.linalg.cond(np.asarray(__import__("spectrum").corrmtx(x, order, "covariance"))[:, 1:]) < 50:
             yield ("fit32", {"x": x.astype(np.complex64 if cplx else np.float32), "order": order, "fn": fn, "dkind": dk})
+    for j in range(0, len(batch), 40):
+        yield ("recexact", {"batch": batch[j: j + 40]})
     n2 = 60 if tier == "quick" else 900
     for i in range(n2):
         cplx = bool(nrng.integers(0, 2))
